@@ -1021,11 +1021,21 @@ func propC14(c *Ctx) {
 	fColdefs := w.FieldOpt("dig", "Integration", "coldefs")
 	fDefBD := w.FieldOpt("dig", "coldef", "BlockData")
 	okNeeds := false
+	freg := NewRegion(flt)
 	for _, call := range callsToFn(flt, w.Fn("shovel/glf", "New")) {
 		needs := call.Call.Args[0]
 		// needs is the phi/append chain of fields; find an unconditional append of Block[i].Name in a loop over all Block
+		// (the list may be built by a helper of its own: ig.fieldNames())
+		var leaves []ssa.Value
 		for _, lf := range phiLeaves(needs) {
-			ap, ok := lf.Val.(*ssa.Call)
+			if rs := freg.Results(stripConv(lf.Val), 0); rs != nil {
+				leaves = append(leaves, rs...)
+			} else {
+				leaves = append(leaves, lf.Val)
+			}
+		}
+		for _, leaf := range leaves {
+			ap, ok := leaf.(*ssa.Call)
 			if !ok || calleeName(ap) != "builtin append" {
 				continue
 			}
@@ -1064,7 +1074,7 @@ func propC14(c *Ctx) {
 			if srcOK {
 				// unconditional: the append's block is the loop body entry (dominated only by the loop condition)
 				condFree := true
-				for _, b := range flt.Blocks {
+				for _, b := range ap.Parent().Blocks {
 					iff, ok := terminator(b).(*ssa.If)
 					if !ok || !b.Dominates(ap.Block()) || b == ap.Block() {
 						continue
@@ -1079,6 +1089,12 @@ func propC14(c *Ctx) {
 						}
 					}
 					condFree = false
+				}
+				// … and the helper that builds the list is itself called unconditionally
+				if ap.Parent() != flt {
+					if site := freg.Lift(ap); site == nil || !freg.Dominates(site, call) {
+						condFree = false
+					}
 				}
 				okNeeds = condFree
 			}
